@@ -380,8 +380,35 @@ macro_rules! conc_dispatch {
     };
 }
 
+/// `Edge` comparison operators exist in digraph, ungraph and sync_ungraph, not in sync_digraph
+macro_rules! ecmp_items {
+    (yes) => {
+        fn edge_cmp(a: &Edge<usize, i64, u32>, b2: &Edge<usize, i64, u32>) -> Option<String> {
+            Some(format!("eq={} ne={} lt={} le={} gt={} ge={} cmp={:?} pcmp={:?}", a == b2, a != b2, a < b2, a <= b2, a > b2, a >= b2, a.cmp(b2), a.partial_cmp(b2)))
+        }
+    };
+    (no) => {
+        fn edge_cmp(_a: &Edge<usize, i64, u32>, _b: &Edge<usize, i64, u32>) -> Option<String> {
+            None
+        }
+    };
+}
+macro_rules! new_graph_items {
+    (di) => {
+        fn graph_with_capacity(n: usize) -> G { G::with_capacity(n) }
+        fn index_both(g: &G, k: usize) -> (usize, usize) { (*g[k].key(), *g[&k].key()) }
+    };
+    (sdi) => {
+        fn graph_with_capacity(_n: usize) -> G { G::default() }
+        fn index_both(g: &G, k: usize) -> (usize, usize) { (*g[k].key(), *g[&k].key()) }
+    };
+    (un) => {
+        fn graph_with_capacity(_n: usize) -> G { G::default() }
+        fn index_both(g: &G, k: usize) -> (usize, usize) { (*g[k].key(), *g[k].key()) }
+    };
+}
 macro_rules! ext_mod {
-    ($m:ident, $fl:ident, $kind:ident, $ckind:ident, $conc:ident) => {
+    ($m:ident, $fl:ident, $kind:ident, $ckind:ident, $conc:ident, $ecmp:ident, $ng:ident) => {
         pub mod $m {
             #![allow(unused, clippy::all)]
             use super::*;
@@ -400,6 +427,8 @@ macro_rules! ext_mod {
             kind_search!($kind);
             kind_reversed!($kind);
             cont_kind_items!($ckind);
+            ecmp_items!($ecmp);
+            new_graph_items!($ng);
 
             /// one operation of a C20 script, against the live graph; returns its result as text
             pub fn script_op(st: &St, g0: &RefCell<G>, op: &crate::exec_conc::Call2) -> String {
@@ -634,12 +663,46 @@ macro_rules! ext_mod {
                         }
                         s
                     }
+                    "ecmp" => {
+                        // ecmp u i v j : comparison operators on the i-th edge node u iterates and the j-th edge node v iterates
+                        let p = |j: usize| -> usize { t[j].parse::<usize>().unwrap() };
+                        let ea = st.node(p(1)).into_iter().nth(p(2));
+                        let eb = st.node(p(3)).into_iter().nth(p(4));
+                        match (ea, eb) {
+                            (Some(a), Some(b2)) => match edge_cmp(&a, &b2) {
+                                None => "unsupported".into(),
+                                Some(s) => {
+                                    if !ctx.quiet && ctx.oracles.iter().any(|o| o == "c06") {
+                                        let same = if DIRECTED { a.source().key() == b2.source().key() && a.target().key() == b2.target().key() } else { a.2 == b2.2 };
+                                        let want = format!("eq={} ne={} lt={} le={} gt={} ge={} cmp={:?} pcmp={:?}", same, !same, a.2 < b2.2, a.2 <= b2.2, a.2 > b2.2, a.2 >= b2.2, a.2.cmp(&b2.2), Some(a.2.cmp(&b2.2)));
+                                        if s != want {
+                                            ctx.fail(case, li, "c06", format!("comparison of edges: {s}, expected {want}"));
+                                        }
+                                    }
+                                    s
+                                }
+                            },
+                            _ => "none".into(),
+                        }
+                    }
+                    "nv" => {
+                        // nv u : key, value through value() and through Deref
+                        let n = st.node(t[1].parse().unwrap());
+                        let d: &i64 = &**n;
+                        format!("key={} val={} deref={}", n.key(), n.value(), d)
+                    }
                     x if x.starts_with("g.") => {
                         let i: usize = t[1].parse().unwrap();
                         slot(ext, i);
                         let c18 = !ctx.quiet && ctx.oracles.iter().any(|o| o == "c18");
                         let p = |j: usize| -> usize { t[j].parse::<usize>().unwrap() };
                         match x {
+                            "g.newcap" => {
+                                // with_capacity where the flavour has it, Default otherwise
+                                ext.graphs[i] = graph_with_capacity(p(2));
+                                ext.refmaps[i] = BTreeMap::new();
+                                "ok".into()
+                            }
                             "g.new" => {
                                 ext.graphs[i] = G::new();
                                 ext.refmaps[i] = BTreeMap::new();
@@ -681,6 +744,8 @@ macro_rules! ext_mod {
                                 }
                             }
                             "g.index" => {
+                                let (k1, k2) = index_both(&ext.graphs[i], p(2));
+                                if c18 && (k1 != p(2) || k2 != p(2)) { ctx.fail(case, li, "c18", format!("index({}) yields nodes {k1} / {k2}", p(2))); }
                                 let n = &ext.graphs[i][p(2)];
                                 if c18 && !(Some(n.value()) == ext.refmaps[i].get(&p(2))) { ctx.fail(case, li, "c18", format!("index({}) yields value {}", p(2), n.value())); }
                                 format!("{}:{}", n.key(), n.value())
@@ -914,7 +979,7 @@ macro_rules! ext_mod {
         }
     };
 }
-ext_mod!(di, digraph, di, di, no);
-ext_mod!(sdi, sync_digraph, di, di, yes);
-ext_mod!(un, ungraph, un, un, no);
-ext_mod!(sun, sync_ungraph, un, sun, yes);
+ext_mod!(di, digraph, di, di, no, yes, di);
+ext_mod!(sdi, sync_digraph, di, di, yes, no, sdi);
+ext_mod!(un, ungraph, un, un, no, yes, un);
+ext_mod!(sun, sync_ungraph, un, sun, yes, yes, un);
